@@ -247,7 +247,7 @@ func (g *mgen) genC13(id string) *c13Case {
 }
 
 func runC13(c *ev.ChildEnv, res *ev.Result) {
-	n := tierN(c.Tier, 4000, 120000) / c.Batches
+	n := tierN(c.Tier, 4000, 600000) / c.Batches
 	reps := tierN(c.Tier, 16, 32)
 	g := newMgen(uint64(c.Seed), uint64(c.Batch)+1300)
 	for i := 0; i < n; i++ {
